@@ -83,7 +83,12 @@ var addCmd = &cobra.Command{
 		if len(args) == 0 {
 			return errors.New("nothing specified, nothing added")
 		}
+		args = toWorkTreePaths(args)
 		for _, arg := range args {
+			// a path that leaves the working tree cannot be tracked
+			if cleanedArg := filepath.ToSlash(filepath.Clean(arg)); cleanedArg == ".." || strings.HasPrefix(cleanedArg, "../") {
+				return fmt.Errorf(`path "%s" is outside the working tree`, arg)
+			}
 			if _, err := os.Stat(arg); err != nil && !os.IsNotExist(err) {
 				return fmt.Errorf(`path "%s" did not match any files`, arg)
 			}
